@@ -292,4 +292,14 @@ theorem hf3_elemsInAabb_complete_right (h : HeightField3 K) (lo hi : V3 K) (i j 
       exact List.mem_append_right _ (List.mem_singleton.2 rfl)
 
 
+/-- non-vacuity: the flat 2x2 field mirrored in x (scale (−1,1,1)), box [−1/4,1/4]×[−1,1]×[−1/4,1/4] around its centre -/
+example : letI := fieldNum ℚ (fun x => x)
+    ∃ t, (0 * (2 - 1) + 0, t) ∈ Hf3S.elemsInAabb (⟨2, 2, #[0, 0, 0, 0], ⟨-1, 1, 1⟩, []⟩ : HeightField3 ℚ) ⟨-1 / 4, -1, -1 / 4⟩ ⟨1 / 4, 1, 1 / 4⟩ := by
+  letI := fieldNum ℚ (fun x => x)
+  exact hf3_elemsInAabb_complete_left (K := ℚ) (fun x => x) ⟨2, 2, #[0, 0, 0, 0], ⟨-1, 1, 1⟩, []⟩ ⟨-1 / 4, -1, -1 / 4⟩ ⟨1 / 4, 1, 1 / 4⟩
+    0 0 0 0 0 (by norm_num) (by norm_num) (by norm_num) (by norm_num) (by norm_num) (by norm_num) (by norm_num)
+    (by simp [HeightField3.status]) (by norm_num) (by norm_num) (by norm_num) (by norm_num)
+    (by norm_num) (by norm_num) (by norm_num) (by norm_num) (by norm_num) (by norm_num)
+    (Or.inl (by simp [HeightField3.height])) (Or.inl (by simp [HeightField3.height]))
+
 end C19
